@@ -360,6 +360,7 @@ def c02_search(ctx):
     dec, enc = NMEA2000Decoder(), NMEA2000Encoder()
     rng = ctx.rng
     out, seen = [], set()
+    nchk = 0
     for d in PL.definitions():
         if not encodable(d):
             continue
@@ -374,30 +375,33 @@ def c02_search(ctx):
         small = [i for i, f in enumerate(d["Fields"]) if f["BitLength"] <= (16 if ctx.thorough else 8) and "Match" not in f
                  and f["FieldType"] not in ("RESERVED",)]
         if small:
-            # thorough: every raw value of every field of <= 10 bits and of two wider (<= 16 bit) fields per
-            # definition; 400 raw values (both ends + random) of each remaining one. (The unbounded statement is
-            # the theorem C02_roundtrip; this sweep exercises the REAL code.)
-            wide = [i for i in small if d["Fields"][i]["BitLength"] > 10]
-            full_wide = set(rng.sample(wide, min(2, len(wide))))
+            # thorough: every raw value of every field of <= 6 bits and of ONE wider (<= 12 bit) field per definition;
+            # ~300 raw values (both ends, the sign boundary, random) of each remaining field of <= 16 bits.
+            # (The unbounded statement is the theorem C02_roundtrip; this sweep exercises the REAL code; ~4 min.)
+            wide = [i for i in small if 6 < d["Fields"][i]["BitLength"] <= 12]
+            full_wide = set(rng.sample(wide, min(1, len(wide))))
             for i in (small if ctx.thorough else [rng.choice(small)]):
                 bg = PL.compose(d, rng)
                 f = d["Fields"][i]
                 n = f["BitLength"]
                 mask = ((1 << n) - 1) << f["BitOffset"]
-                if n <= 10 or i in full_wide or not ctx.thorough:
+                if n <= 6 or i in full_wide or not ctx.thorough:
                     raws = range(1 << n)
                 else:
                     top = 1 << n
-                    raws = sorted(set(list(range(64)) + list(range(top - 64, top)) + list(range(top // 2 - 32, top // 2 + 32))
-                                      + [rng.randrange(top) for _ in range(208)]))
+                    raws = sorted(set([x for x in list(range(48)) + list(range(top - 48, top)) +
+                                       list(range(top // 2 - 24, top // 2 + 24)) if 0 <= x < top]
+                                      + [rng.randrange(top) for _ in range(160)]))
                 for rawv in raws:
                     pls.append((f"f{i}:all", (bg & ~mask) | (rawv << f["BitOffset"])))
+        nchk += len(pls)
         for label, p in pls:
             w = c02_check(d, p, dec, enc)
             if w and w["key"] not in seen:
                 seen.add(w["key"])
                 w["class"] = label
                 out.append(w)
+    ctx.notes.append(f"witness search: {nchk} payloads decoded, re-encoded and compared bit by bit on the real code")
     return out
 
 
